@@ -10,6 +10,9 @@ NEEDS_BINARY = True
 TRUSTED_BASE = l3common.TRUSTED_L3
 
 
+ORIG = {}
+
+
 def gen_case(rng, binary):
     """-> (workspace, cfg, kind); the underlying series applies completely (checked with a dry run), so the
     inconsistency introduced here is the first thing the push meets"""
@@ -22,6 +25,7 @@ def gen_case(rng, binary):
     if rc != 0:
         return None
     names = l3common.series_names(w)
+    ORIG[id(w)] = dict(w["patches"])
     cfg = l3common.rand_cfg(rng, threads=(1, 2, 4))
     kind = rng.choice(["longer", "reordered", "edited", "goal-unknown", "goal-applied", "missing-patch", "unparseable-patch",
                        "binary-patch", "goal-unknown-all-applied", "unreadable-applied"])
@@ -67,7 +71,18 @@ def gen_case(rng, binary):
     elif kind == "unparseable-patch":
         victim = rng.choice(names)
         w["patches"][victim] = rng.choice([b"--- a/f\n+++ b/f\n@@ -1 +1 @@\n-x\n", b"--- a/f\n+++ b/f\n@@ -1,2 +1 @@\n x\nfoo\n",
-                                           b"--- a/f\n+++ b/f\n@@ -x +1 @@\n", b"--- a/f\n+++ b/../../f\n@@ -0,0 +1 @@\n+x\n"])
+                                           b"--- a/f\n+++ b/f\n@@ -x +1 @@\n", b"--- a/f\n+++ b/../../f\n@@ -0,0 +1 @@\n+x\n",
+                                           # cut off in the trailing context of its last hunk (seeded C17-i: the missing lines
+                                           # were "tolerated" as empty context)
+                                           b"--- a/f\n+++ b/f\n@@ -1,3 +1,3 @@\n a\n-b\n+B\n", b"--- a/f\n+++ b/f\n@@ -1,4 +1,4 @@\n a\n-b\n+B\n c\n"])
+        orig = ORIG.get(id(w))
+        if orig is not None and rng.random() < 0.4:
+            # ... or the victim's own text, cut off inside the trailing context of its last hunk
+            ls = orig[victim].split(b"\n")
+            while ls and ls[-1] == b"":
+                ls.pop()
+            if len(ls) > 4 and ls[-1].startswith(b" ") and not ls[-1].startswith(b"  @@"):
+                w["patches"][victim] = b"\n".join(ls[:-1]) + b"\n"
     elif kind == "binary-patch":
         victim = rng.choice(names)
         w["patches"][victim] = b"diff --git a/f b/f\nGIT binary patch\nliteral 0\n"
